@@ -133,6 +133,56 @@ Section Machine.
   Definition executed_at (st : A -> N) (h : list (list T * bool)) (j k : nat) (a : A) (n : N) : Prop :=
     exists ms ok l m, nth_error h j = Some (ms, ok) /\ nth_error (outcomes_tx st h) j = Some (Some l) /\
                       nth_error ms k = Some m /\ nth_error l k = Some a /\ nonce_of m = n.
+
+  (** ** signed messages carried by a submission that is not their route
+
+      A signed message (a MsgEthereumTx) can also be SHIPPED inside a Cosmos
+      transaction that is not the message's own route: as an inner message of
+      authz.MsgExec (alone, behind plain messages, nested, beside other inner
+      messages, signed by the message's signer or by somebody else), as a plain
+      message of an ordinary Cosmos transaction without the Ethereum extension
+      option, inside an EIP-712-signed Cosmos transaction, or behind the
+      Ethereum extension option but inside a wrapper.  The code refuses every
+      such transaction before anything is executed (RejectMessagesDecorator,
+      AuthzLimiterDecorator with MsgEthereumTx among the disabled types, the type
+      assertion of the Ethereum ante chain): the acceptance rule of a wrapped
+      submission is "never" -- whatever the outer signature, whatever the
+      carried messages (fresh, executed before, from the future), whatever the
+      verdict of the other checks -- and it leaves the state as it was.  [w]
+      describes the wrapper (its own signed unit, its shape); the rule does not
+      look at it. *)
+  Context {W : Type}.
+  Inductive submission :=
+  | Direct (ms : list T) (other_ok : bool)                    (* the messages' own route: [step_tx] *)
+  | Wrapped (w : W) (carried : list T) (other_ok : bool).     (* any other way of shipping them *)
+
+  (** the signed messages a submission contains, in order *)
+  Definition msgs_of (x : submission) : list T :=
+    match x with Direct ms _ => ms | Wrapped _ c _ => c end.
+
+  Definition step_any (st : A -> N) (x : submission) : (A -> N) * option (list A) :=
+    match x with
+    | Direct ms ok => step_tx st (ms, ok)
+    | Wrapped _ _ _ => (st, None)
+    end.
+
+  Fixpoint outcomes_any (st : A -> N) (h : list submission) : list (option (list A)) :=
+    match h with
+    | [] => []
+    | x :: r => snd (step_any st x) :: outcomes_any (fst (step_any st x)) r
+    end.
+  Fixpoint final_any (st : A -> N) (h : list submission) : A -> N :=
+    match h with
+    | [] => st
+    | x :: r => final_any (fst (step_any st x)) r
+    end.
+
+  (** "signed message number [k] of submission number [j] of history [h]
+      (started in [st]) -- direct or carried by a wrapper -- was executed on
+      behalf of account [a] with nonce [n]" *)
+  Definition executed_any (st : A -> N) (h : list submission) (j k : nat) (a : A) (n : N) : Prop :=
+    exists x l m, nth_error h j = Some x /\ nth_error (outcomes_any st h) j = Some (Some l) /\
+                  nth_error (msgs_of x) k = Some m /\ nth_error l k = Some a /\ nonce_of m = n.
 End Machine.
 
 (** * the Ethereum route *)
@@ -162,6 +212,13 @@ Section EthRoute.
   Definition outcomes_eth_tx := outcomes_tx (list_eq_dec N.eq_dec) auth_eth tx_nonce.
   Definition final_eth_tx := final_tx (list_eq_dec N.eq_dec) auth_eth tx_nonce.
   Definition executed_eth := executed_at (list_eq_dec N.eq_dec) auth_eth tx_nonce.
+
+  (** histories in which signed Ethereum messages are also shipped on other
+      routes (wrapped in authz.MsgExec, as plain Cosmos messages, ...) *)
+  Definition step_eth_any {W} := step_any (W:=W) (list_eq_dec N.eq_dec) auth_eth tx_nonce.
+  Definition outcomes_eth_any {W} := outcomes_any (W:=W) (list_eq_dec N.eq_dec) auth_eth tx_nonce.
+  Definition final_eth_any {W} := final_any (W:=W) (list_eq_dec N.eq_dec) auth_eth tx_nonce.
+  Definition executed_eth_any {W} := executed_any (W:=W) (list_eq_dec N.eq_dec) auth_eth tx_nonce.
 End EthRoute.
 
 (** signing, for the positive direction: [sign k h] gives (r, s, recovery id) *)
@@ -282,6 +339,15 @@ Definition step_sub (nd : node) := step N.eq_dec (auth_sub nd) sub_nonce.
     for the Ethereum route *)
 Definition step_sub_tx (nd : node) := step_tx N.eq_dec (auth_sub nd) sub_nonce.
 
+(** a wrapped submission as the correspondence run records it: the signed unit
+    of the wrapping Cosmos transaction ([None]: an envelope without a Cosmos
+    signature), the number of plain messages before the wrapper, the depth of
+    MsgExec nesting (0 = the Ethereum messages are plain messages of the Cosmos
+    transaction), whether the harness had stored an authz grant for the
+    wrapper's signer.  The model's verdict does not depend on any of it. *)
+Record wrap := mk_wrap { w_outer : option sub; w_plain_before : nat; w_depth : nat; w_granted : bool }.
+Definition step_sub_any (nd : node) := step_any (W:=wrap) N.eq_dec (auth_sub nd) sub_nonce.
+
 Fixpoint list_N_eqb (x y : list N) : bool :=
   match x, y with
   | [], [] => true
@@ -290,18 +356,19 @@ Fixpoint list_N_eqb (x y : list N) : bool :=
   end.
 
 (** a recorded history: initial sequences of the interned accounts, then for
-    every submitted transaction its signed units, the verdict of the unmodelled
-    checks and what the implementation did (the executing accounts in message
+    every submitted transaction its signed units ([Direct]) or the wrapper and
+    the signed Ethereum messages it carries ([Wrapped]), the verdict of the
+    unmodelled checks and what the implementation did (the executing accounts in message
     order, if accepted) together with the sequences of all interned accounts
     afterwards *)
 Definition init_state (l : list (N * N)) : N -> N := lookup l.
 
 Fixpoint check_from (nd : node) (na : nat) (i : nat) (st : N -> N)
-         (h : list (list sub * bool * option (list N) * list N)) : option nat :=
+         (h : list (@submission sub wrap * option (list N) * list N)) : option nat :=
   match h with
   | [] => None
-  | (s, other_ok, who, seqs) :: r =>
-      let '(st', o) := step_sub_tx nd st (s, other_ok) in
+  | (x, who, seqs) :: r =>
+      let '(st', o) := step_sub_any nd st x in
       let same_who := match o, who with
                       | Some a, Some b => list_N_eqb a b | None, None => true | _, _ => false end in
       let same_seqs := forallb (fun p => N.eqb (st' (N.of_nat (fst p))) (snd p)) (combine (seq 0 na) seqs) in
@@ -310,7 +377,7 @@ Fixpoint check_from (nd : node) (na : nat) (i : nat) (st : N -> N)
 
 Record hist := mk_hist {
   h_node : node; h_naccounts : nat; h_init : list (N * N);
-  h_steps : list (list sub * bool * option (list N) * list N) }.
+  h_steps : list (@submission sub wrap * option (list N) * list N) }.
 
 Definition check_case (c : hist) : bool :=
   match check_from (h_node c) (h_naccounts c) 0 (init_state (h_init c)) (h_steps c) with None => true | Some _ => false end.
